@@ -1,7 +1,7 @@
 # C04 — storage hints are honoured.
 import common, schema, histgen, p_hist
 THEOREMS = ["C04_absent", "C04_no_insert_sections", "C04_no_insert_member", "C04_other_aec", "C04_other_mm", "C04_other_direct", "C04_preamble", "C04_never_returned", "C04_rr_hints", "C04_log_respects_hints", "C04_every_entry_reachable", "C04_reachable_nonvacuous", "C04_nonvacuous"]
-EXTRA_PROPERTY_FILES = ("Properties_format",)   # obligations over the regenerated Gen_format.v (translator/format.py)
+EXTRA_PROPERTY_FILES = ("Properties_format", "Properties_builder")   # obligations over the regenerated Gen_format.v (translator/format.py)
 def gen_cases(sch, tier, rng):
     cases = []
     A, S = histgen.ALL_QR_BITS, histgen.ALL_SIG_BITS
